@@ -256,7 +256,7 @@ pub fn run_c03(rep: &mut Report) {
     rep.distinct_nontrivial = distinct_cells.len() as u64;
     rep.exhaustive = Some(true);
     rep.rule = "every constrained (layout, key, level) cell of refs/layouts/*.tsv × every (modifier set, Ctrl mode) pair that selects that level (CapsLock off, Ctrl not being mapped, Shift+AltGr excluded) × 3 layout forms, read from the recorded cube of real map_keycode calls; \
-                plus every cell typed end-to-end through Keyboard from reference scancodes of both sets; distinct_nontrivial = distinct (layout, key, level) cells observed to hold"
+                the same reference applied to every press typed through Keyboard::process_keyevent in hostile histories; plus every cell typed end-to-end through Keyboard from reference scancodes of both sets; distinct_nontrivial = distinct (layout, key, level) cells observed to hold"
         .into();
     rep.assumptions.push("refs/layouts/*.tsv transcribe the national / ergonomic standards (DESIGN.md A.3); cells where deployed standards differ accept each attested variant; keys absent from the physical keyboard are unconstrained".into());
     rep.assumptions.push("an AltGr output is constrained only where it differs from the key's base output; on keys for which no AltGr character was transcribed only another key's AltGr character is flagged".into());
@@ -464,7 +464,7 @@ pub fn run_c09(rep: &mut Report) {
     rep.distinct_nontrivial = distinct.len() as u64;
     rep.exhaustive = Some(true);
     rep.rule = "reference-free: a key is a letter key of a layout iff its observed unmodified output is a..z; for every modifier set with a Ctrl key and no Alt, mapping on, the output must be that letter's control character; \
-                otherwise (Ctrl not held / non-letter key) both modes must agree, and with mapping off the Ctrl keys must change nothing; all 30 layout objects × keys × 512 × 2; \
+                otherwise (Ctrl not held / non-letter key) both modes must agree, and with mapping off the Ctrl keys must change nothing; the 10 layouts × keys × 512 × 2 from the recorded cube, and the same predicate on every press typed through Keyboard::process_keyevent in hostile histories (keys re-pressed while held, modifier and mode changes in between); \
                 distinct_nontrivial = distinct (layout, letter key) pairs whose Ctrl mapping was observed correct"
         .into();
     for (li, key) in [(0usize, KeyCode::K), (2, KeyCode::Y), (7, KeyCode::R), (8, KeyCode::Q), (3, KeyCode::Q)] {
@@ -592,7 +592,7 @@ pub fn run_c10(rep: &mut Report) {
     rep.distinct_nontrivial = distinct.len() as u64;
     rep.exhaustive = Some(true);
     rep.rule = "reference-free: letter key iff observed base output is a lowercase letter (Unicode) whose single-character uppercase is the observed shifted output; on letter keys every CapsLock-on modifier set must give what its Shift-inverted CapsLock-off twin gives, on all other keys what the same set without CapsLock gives; \
-                30 layout objects × keys × 256 CapsLock pairs × 2 modes; distinct_nontrivial = distinct (layout, key) pairs observed to obey their rule in every pair"
+                the 10 layouts × keys × 256 CapsLock pairs × 2 modes from the recorded cube, and the same predicate on every press typed through Keyboard::process_keyevent in hostile histories; distinct_nontrivial = distinct (layout, key) pairs observed to obey their rule in every pair"
         .into();
     for (li, key) in [(2usize, KeyCode::Oem1), (2, KeyCode::Oem6), (4, KeyCode::Oem4), (3, KeyCode::M), (7, KeyCode::P)] {
         let ki = cube.key_index(key).unwrap();
@@ -709,7 +709,7 @@ pub fn run_c11(rep: &mut Report) {
     rep.require("abstract classes", classes_seen.len() as u64, 32);
     rep.distinct_nontrivial = distinct;
     rep.exhaustive = Some(true);
-    rep.rule = "reference-free: the 512 modifier sets are partitioned by (Shift, Ctrl, AltGr, CapsLock, NumLock – NumLock only for the 11 numpad digit/decimal keys); the recorded output must be constant on every class, per key, layout object and mode; \
+    rep.rule = "reference-free: the 512 modifier sets are partitioned by (Shift, Ctrl, AltGr, CapsLock, NumLock – NumLock only for the 11 numpad digit/decimal keys); the recorded output must be constant on every class, per key, layout and mode (10 layouts; wrappers are C17's), and every press typed through Keyboard::process_keyevent in hostile histories must type what the class determines; \
                 the five Modifiers predicates on all 512 values against their defining formulas; distinct_nontrivial = (layout object, key, mode) rows found constant on all their classes"
         .into();
     let ki = cube.key_index(KeyCode::A).unwrap();
@@ -784,7 +784,7 @@ pub fn run_c12(rep: &mut Report) {
     rep.count("ascii_characters_with_a_witness_key", witnesses);
     rep.distinct_nontrivial = witnesses;
     rep.exhaustive = Some(true);
-    rep.rule = "reference-free: per layout object, the set of Unicode outputs over every key × {no modifier, left Shift, right Alt alone} (NumLock on, both Ctrl modes) must contain all 95 characters U+0020..U+007E; \
+    rep.rule = "reference-free: per layout (the 10 shipped layouts), the set of Unicode outputs over every key × {no modifier, left Shift, right Alt alone} (NumLock on, both Ctrl modes) must contain all 95 characters U+0020..U+007E; \
                 distinct_nontrivial = (layout, character) pairs for which a witness key was found"
         .into();
     rep.require("witnesses", witnesses, 900);
@@ -884,7 +884,7 @@ pub fn run_c15(rep: &mut Report) {
     }
     rep.distinct_nontrivial = distinct.len() as u64;
     rep.exhaustive = Some(true);
-    rep.rule = "tables of DESIGN.md A.4 (digit ↔ navigation alias, operators, decimal separator per layout, six editing keys) applied to the recorded cube in all 512 modifier sets × 2 modes × 30 layout objects; \
+    rep.rule = "tables of DESIGN.md A.4 (digit ↔ navigation alias, operators, decimal separator per layout, six editing keys) applied to the recorded cube in all 512 modifier sets × 2 modes × the 10 layouts, and to every press typed through Keyboard::process_keyevent in hostile histories (numpad keys re-pressed while held with NumLock toggled in between); \
                 distinct_nontrivial = distinct (layout, key, NumLock state) cases observed correct"
         .into();
     rep.assumptions.push("decimal separator: ',' for No105Key/FiSe105Key, '.' for the others; De105Key accepts ',' (DIN/KBDGR) or '.'; Numpad5 with NumLock off is unconstrained (no navigation alias exists)".into());
@@ -978,7 +978,7 @@ pub fn run_c16(rep: &mut Report) {
     rep.count("charless_keys_required_raw", CHARLESS.len() as u64);
     rep.distinct_nontrivial = distinct.len() as u64;
     rep.exhaustive = Some(true);
-    rep.rule = "the 52 keys that carry no character on any keyboard must give RawKey(self) in all 30 layout objects × 512 × 2; every RawKey(r) output of any key must have r = the key, or (numpad key, NumLock off) its navigation alias; \
+    rep.rule = "the 52 keys that carry no character on any keyboard must give RawKey(self) in all 30 layout objects × 512 × 2; every RawKey(r) output of any key must have r = the key, or (numpad key, NumLock off) its navigation alias; the same on every press typed through Keyboard::process_keyevent in hostile histories; \
                 distinct_nontrivial = (layout object, key) rows observed clean"
         .into();
     let ki = cube.key_index(KeyCode::F1).unwrap();
